@@ -252,7 +252,7 @@ func init() {
 		return &Check{ID: "C16",
 			Runs: []Run{{S: c16Scenario(), Opt: map[Tier]Options{
 				Quick:    {Depth: 4, Budget: 150 * time.Second, ReplayEvery: 16},
-				Thorough: {Depth: 6, Budget: 25 * time.Minute, ReplayEvery: 32, MaxStates: 400000},
+				Thorough: {Depth: 6, Budget: 15 * time.Minute, ReplayEvery: 32, MaxStates: 400000},
 			}}},
 			Extra:       c16Enum,
 			Owns:        ownsAny("params."),
